@@ -23,9 +23,9 @@ PY = sys.executable
 
 # runs per tier (history checks); sized from measured costs, see DESIGN 4.x 'Cost'
 RUNS = {
-    "C08": {"quick": 480, "thorough": 12000},
-    "C09": {"quick": 640, "thorough": 16000},
-    "C10": {"quick": 320, "thorough": 8000},
+    "C08": {"quick": 1600, "thorough": 48000},
+    "C09": {"quick": 1920, "thorough": 48000},
+    "C10": {"quick": 800, "thorough": 24000},
 }
 RESTART_EVERY = {"quick": 8, "thorough": 1}
 TASK_WALL = 900  # seconds, backstop per chunk of runs
@@ -220,13 +220,16 @@ def known_match(known, prop, violation, steps):
 
 
 # ---------------------------------------------------------------- history checks
-def history_check(prop, tier, seed, jobs, nruns=None, force=None):
+def history_check(prop, tier, seed, jobs, nruns=None, force=None, only=None):
     from . import runner, shrink
 
     t_start = time.time()
     src = assert_repo_tree()
     n = nruns or RUNS[prop][tier]
     runs = list(range(n))
+    if only is not None:
+        runs = list(only)
+        n = len(runs)
     print(f"SEED {seed} property={prop} tier={tier} runs={n} jobs={jobs} shapepy={src}")
     sys.stdout.flush()
     results, errors = run_batch(prop, seed, runs, jobs, force)
@@ -431,6 +434,7 @@ def main(argv=None):
     ap.add_argument("--tier", default=os.environ.get("VERIF_TIER", "quick"), choices=["quick", "thorough"])
     ap.add_argument("--replay")
     ap.add_argument("--runs", type=int)
+    ap.add_argument("--only", help="comma separated run indices (debugging / triage)")
     ap.add_argument("--jobs", type=int, default=_env_int("VERIF_JOBS", os.cpu_count() or 4))
     ap.add_argument("--seed", type=int, default=_env_int("VERIF_SEED", 0))
     args = ap.parse_args(argv)
@@ -438,7 +442,8 @@ def main(argv=None):
         if args.what == "replay" or args.replay:
             return cmd_replay(args.replay)
         if args.what in ("C08", "C09", "C10"):
-            return history_check(args.what, args.tier, args.seed, args.jobs, args.runs)
+            only = [int(x) for x in args.only.split(",")] if args.only else None
+            return history_check(args.what, args.tier, args.seed, args.jobs, args.runs, only=only)
         if args.what == "C11":
             from . import c11
 
